@@ -342,6 +342,7 @@ impl Scenario for C13 {
                 kind: Some(Kind::Jitter),
                 clock: Some(clock),
                 aux: vec![class, 0],
+                logger: rng.chance(1, 6),
                 ..Default::default()
             };
         }
@@ -457,7 +458,16 @@ impl Scenario for C13 {
         };
         let res = match r {
             Ok(x) => x,
-            Err(SutFail::Panic(m)) => return sut_panic("test_timer", &m),
+            Err(SutFail::Panic(m)) => {
+                // test_timer must return Ok or Err for every timer: a panic is neither (C14 reports
+                // the panic as such; here it is the missing verdict that counts)
+                let site = m.rsplit(" @ ").next().unwrap_or("?");
+                let site = match site.rfind("/rand_") {
+                    Some(i) => site[i + 1..].to_string(),
+                    None => site.to_string(),
+                };
+                return viol("C13/no_verdict_panic", format!("test_timer@{}", site), format!("test_timer panicked instead of returning Ok or Err: {}", m));
+            }
             Err(SutFail::ClockAbort) => {
                 return viol("C13/reads_beyond_400_probes", "test_timer", "test_timer read the timer more than 1 + 4*400 times".to_string())
             }
